@@ -3,7 +3,7 @@
 Exit codes: 0 = property held on everything explored (known findings are printed, not raised);
 1 = at least one VIOLATION line; 2 = tool error (cargo, javac, TLC crash, timeout) — never a verdict.
 """
-import json, os, re, subprocess, sys, time, hashlib, shutil, concurrent.futures as cf
+import threading, json, os, re, subprocess, sys, time, hashlib, shutil, concurrent.futures as cf
 
 VERIF = os.path.dirname(os.path.dirname(os.path.abspath(__file__)))
 WORK = os.path.join(VERIF, "work")
@@ -134,8 +134,13 @@ def restricted_spec(wdir, props):
             continue
         out.append(line.replace("MODULE ApiTrace ", "MODULE %s " % name))
     spec = os.path.join(wdir, name + ".tla")
-    open(spec, "w").write("\n".join(out) + "\n")
-    shutil.copy(os.path.join(TLA, "ApiTrace.cfg"), os.path.join(wdir, name + ".cfg"))
+    text = "\n".join(out) + "\n"
+    # shards are validated concurrently: never truncate a file another TLC may be reading
+    for dst, body in ((spec, text), (os.path.join(wdir, name + ".cfg"), open(os.path.join(TLA, "ApiTrace.cfg")).read())):
+        if not (os.path.exists(dst) and open(dst).read() == body):
+            tmp = "%s.%d.%d.tmp" % (dst, os.getpid(), threading.get_ident())
+            open(tmp, "w").write(body)
+            os.replace(tmp, dst)
     return spec, os.path.join(wdir, name + ".cfg")
 
 
